@@ -322,6 +322,48 @@ func runC06(c *Ctx) {
 		})
 	})
 
+	// ---- R06f
+	c.Rule("R06f", "what is hashed is what is on disk: in LocalDir.Files the bytes handed to NewLocalFile are the unmodified result of the file read (single definition from a ReadFile call, not reassigned or transformed)", 1)
+	if lf := c.Func("R06f", pMigrate, "LocalDir", "Files"); lf != nil {
+		info := lf.Info()
+		ok, found := false, false
+		ast.Inspect(lf.Decl.Body, func(m ast.Node) bool {
+			call, isCall := m.(*ast.CallExpr)
+			if !isCall || !funcIs(calleeOf(info, call), pMigrate, "", "NewLocalFile") || len(call.Args) != 2 {
+				return true
+			}
+			found = true
+			id, isID := call.Args[1].(*ast.Ident)
+			if !isID {
+				return true
+			}
+			o := info.ObjectOf(id)
+			defs, fromRead := 0, false
+			ast.Inspect(lf.Decl.Body, func(k ast.Node) bool {
+				as, isAs := k.(*ast.AssignStmt)
+				if !isAs {
+					return true
+				}
+				for i, l := range as.Lhs {
+					if li, isLi := l.(*ast.Ident); isLi && info.ObjectOf(li) == o {
+						defs++
+						if len(as.Rhs) == 1 && i == 0 {
+							if rc, isRC := as.Rhs[0].(*ast.CallExpr); isRC {
+								if fn := calleeOf(info, rc); fn != nil && fn.Name() == "ReadFile" {
+									fromRead = true
+								}
+							}
+						}
+					}
+				}
+				return true
+			})
+			ok = defs == 1 && fromRead
+			return true
+		})
+		c.Check("R06f", "LocalDir.Files|file bytes unmodified", lf.Decl.Pos(), found && ok, "the bytes given to NewLocalFile are not the single, unmodified result of ReadFile: edits that the transformation hides (e.g. line-ending changes) are no longer detected by the checksum")
+	}
+
 	// ---- R06b
 	checkCommandsValidate(c)
 
